@@ -68,6 +68,10 @@ fn main() {
             let f = bytecheck::pbt(&c, bytecheck::mode_for(&c.prop));
             c.finish(f);
         }
+        "bytes-sweep" => {
+            let f = bytecheck::sweep(&c, bytecheck::mode_for(&c.prop));
+            c.finish(f);
+        }
         "iter-exh" => {
             let f = itercheck::exhaustive(&c);
             c.finish(f);
